@@ -61,6 +61,8 @@ static void on_event(vbi_event *e, void *) {
 	g_ev->push_back(v);
 }
 
+static void on_event_ignore(vbi_event *, void *) {}
+
 struct Line { int car; unsigned cni, pil, pty, pcs; unsigned lto, mjd, h, m, s; unsigned wss; };	// what one line carries
 
 static vbi_sliced mk_line(const Line &l) {
@@ -110,7 +112,7 @@ static int scenario_xds(Src &s, Report &r, vbi_decoder *dec, std::vector<Ev> &ev
 		for (size_t i = 0; i < data.size(); i += 2) send_pair(data[i], i + 1 < data.size() ? data[i + 1] : 0);
 		send_pair(0x0F, xds::checksum(2, type, data));
 	};
-	static const char *NAMES[] = {"PUBLIC BROADCASTING", "NEWS CHANNEL NINE", "WEATHER", "MOVIES AND MORE", "KIDS", "THE SPORTS NETWORK"};
+	static const char *NAMES[] = {"PUBLIC BROADCASTING", "PUBLIC", "NEWS CHANNEL NINE", "NEWS", "KIDS", "THE SPORTS NETWORK"};	// (two pairs in which one name is the beginning of the other)
 	static const char *CALLS[] = {"KQED", "WNET", "KABC", "WGBH", "KTVU", "WPIX"};
 	unsigned ia = s.pick(6), ib = (ia + 1 + s.pick(5)) % 6;
 	bool with_call = s.chance(1, 2);
@@ -363,6 +365,11 @@ int vf_run_case(Src &s, Report &r) {
 	} else {
 		// ---------- scenario C: WSS ----------
 		r.say("scenario C: WSS\n");
+		// the aspect handler does not ask for programme information here; in the middle of the history a second handler registers for it,
+		// which must not make the decoder forget (and announce again) the aspect ratio it has already announced
+		vbi_event_handler_register(dec, VBI_EVENT_TTX_PAGE | VBI_EVENT_NETWORK | VBI_EVENT_NETWORK_ID | VBI_EVENT_PROG_ID | VBI_EVENT_LOCAL_TIME | VBI_EVENT_ASPECT, on_event, nullptr);
+		unsigned second_handler_at = nfr / 2; static int second_handler_tag;
+		bool announced_in_run = false;
 		unsigned lastw = ~0u, runw = 0; bool announced = false; ExpAspect cur_as = {1.0, 0, 3, true, false}; bool have_as = false;
 		unsigned f = 0;
 		while (f < nfr && !rc) {
@@ -371,24 +378,26 @@ int vf_run_case(Src &s, Report &r) {
 			bool bad_parity = s.chance(1, 6); if (bad_parity) w ^= 8;
 			unsigned len = 1 + s.pick(8);
 			for (unsigned k = 0; k < len && f < nfr && !rc; ++k, ++f) {
+				if (f == second_handler_at) vbi_event_handler_register(dec, VBI_EVENT_PROG_INFO, on_event_ignore, &second_handler_tag);
 				Line l; memset(&l, 0, sizeof l); l.car = WSS; l.wss = w;
 				std::vector<vbi_sliced> ls; ls.push_back(mk_line(l));
 				size_t ev0 = evs.size();
 				frame(ls);
-				if (w == lastw) ++runw; else { lastw = w; runw = 1; }
+				if (w == lastw) ++runw; else { lastw = w; runw = 1; announced_in_run = false; }
 				unsigned n_as = 0; const Ev *ae = nullptr;
 				for (size_t i = ev0; i < evs.size(); ++i) if (evs[i].type == VBI_EVENT_ASPECT) { ++n_as; ae = &evs[i]; }
 				ExpAspect x = aspect_of(w);
 				if (n_as > 1) rc = r.fail("C13:aspect-announced-twice", "frame %u: %u ASPECT events for one WSS word", f, n_as);
 				else if (n_as == 1) {
-					if (bad_parity) rc = r.fail("C13:wss-bad-parity-announced", "frame %u: WSS word %04x with wrong parity in the aspect group was announced", f, w);
+					if (announced_in_run) rc = r.fail("C13:aspect-announced-again", "frame %u: WSS word %04x announced a second time while it keeps arriving unchanged (%u receptions in a row)", f, w, runw);
+					else if (bad_parity) rc = r.fail("C13:wss-bad-parity-announced", "frame %u: WSS word %04x with wrong parity in the aspect group was announced", f, w);
 					else if (runw < 4) rc = r.fail("C13:wss-announced-too-early", "frame %u: WSS word %04x announced after %u identical receptions", f, w, runw);
 					else if (std::fabs(ae->asp.ratio - x.ratio) > 1e-9 || ae->asp.film_mode != x.film || (int) ae->asp.open_subtitles != (x.subt == 0 ? VBI_SUBT_NONE : x.subt == 1 ? VBI_SUBT_ACTIVE : x.subt == 2 ? VBI_SUBT_MATTE : VBI_SUBT_UNKNOWN))
 						rc = r.fail("C13:aspect-not-as-transmitted", "frame %u: WSS word %04x: event ratio %.3f film %d subtitles %d, transmitted ratio %.3f film %d subtitles code %d", f, w, ae->asp.ratio, ae->asp.film_mode, ae->asp.open_subtitles, x.ratio, x.film, x.subt);
 					else if (x.full && (ae->asp.first_line != 23 || ae->asp.last_line != 310)) rc = r.fail("C13:aspect-lines", "frame %u: full format word %04x reports active lines %d-%d", f, w, ae->asp.first_line, ae->asp.last_line);
 					else if (!x.full && !(ae->asp.first_line >= 23 && ae->asp.last_line <= 310 && ae->asp.last_line - ae->asp.first_line < 287 && (!x.top || ae->asp.first_line == 23))) rc = r.fail("C13:aspect-lines", "frame %u: letterbox word %04x reports active lines %d-%d", f, w, ae->asp.first_line, ae->asp.last_line);
 					if (announced && runw >= 4) nt = true;
-					announced = true; have_as = true; cur_as = x;
+					announced = true; have_as = true; cur_as = x; announced_in_run = true;
 				} else if (!bad_parity && runw == 4 && have_as && (x.ratio != cur_as.ratio || x.film != cur_as.film || x.subt != cur_as.subt)) {
 					rc = r.fail("C13:aspect-change-not-announced", "frame %u: WSS word %04x received 4 times in a row with valid parity and a different ratio / film / subtitle value, no ASPECT event", f, w);
 				}
